@@ -4,6 +4,7 @@ import (
 	"fmt"
 	"runtime"
 	"strings"
+	"sync"
 	"testing/synctest"
 	"time"
 	"unsafe"
@@ -23,13 +24,14 @@ const (
 	ptIdle     uint8 = 26 // the vacuum goroutine is back at its ticker
 	ptClock    uint8 = 27 // the clock pseudo-thread: picking it advances the fake clock
 	ptInMerge  uint8 = 28 // inside a user merge function called by a column's Apply (write latch and column read lock held)
+	ptMuLock   uint8 = 29 // before a sync.Mutex / sync.RWMutex acquisition (instrumented build: every lock site of the library)
 	ptMax      uint8 = 32
 )
 
 var pointName = map[uint8]string{
 	1: "BeforeRLock", 2: "BeforeLock", 3: "AfterUnlock", 4: "MidCommit1", 5: "MidCommit2", 6: "MidCommit3",
 	7: "AfterReserve", 8: "KeyChecked", 9: "SnapshotPhase", 10: "IndexBuild",
-	ptStart: "start", ptBetween: "betweenOps", ptInRead: "inRead", ptTxnEdge: "txnEdge", ptLinkWait: "linkWait", ptIdle: "vacuumIdle", ptClock: "clockAdvance", ptInMerge: "inMergeFn",
+	ptStart: "start", ptBetween: "betweenOps", ptInRead: "inRead", ptTxnEdge: "txnEdge", ptLinkWait: "linkWait", ptIdle: "vacuumIdle", ptClock: "clockAdvance", ptInMerge: "inMergeFn", ptMuLock: "beforeMutex",
 }
 
 // Point is where a simulated thread is parked.
@@ -39,6 +41,11 @@ type Point struct {
 	Latch *smutex.SMutex128
 	Arg   uint32
 	Ready func() bool // optional extra enabledness condition (harness waits)
+	// ptMuLock: the mutex about to be acquired (peeked like the latches: every other thread is
+	// parked outside package sync)
+	Mu      unsafe.Pointer
+	MuRW    bool // sync.RWMutex (else sync.Mutex)
+	MuWrite bool // Lock (else RLock)
 }
 
 // Thread is one simulated thread: a real goroutine that runs only while it holds the baton.
@@ -58,6 +65,16 @@ type Thread struct {
 	foreign     bool        // not started by the simulator: the collection's own vacuum goroutine
 	atPassStart bool        // foreign thread parked at the first hook of a new pass
 	inline      func() bool // pseudo-thread executed on the scheduler goroutine; returns false when finished
+	stallUntil  int         // fault "stall": not scheduled before this step unless nothing else can run
+}
+
+// stallRule is one "slow node" fault of the case: see Fault.
+type stallRule struct {
+	role string
+	kind uint8
+	arg  int // -1 = any
+	n    int
+	used bool
 }
 
 // Sim is the controlled scheduler. Exactly one simulated thread runs at any time; which one
@@ -94,6 +111,24 @@ type Sim struct {
 	onForeign  func(t *Thread, wasIdle bool)
 	gate       func(t *Thread) bool // extra enabledness condition decided by the world
 	onIdle     func(t *Thread)
+	stalls     []*stallRule
+	faults     map[string]int // scheduler-level faults that actually fired
+}
+
+// AddStalls installs the stall faults of a case.
+func (s *Sim) AddStalls(faults []Fault) {
+	for _, f := range faults {
+		if f.Kind == "stall" && f.N > 0 {
+			s.stalls = append(s.stalls, &stallRule{role: f.Role, kind: uint8(f.At), arg: f.Arg - 1, n: f.N})
+		}
+	}
+}
+
+func (s *Sim) noteFault(name string) {
+	if s.faults == nil {
+		s.faults = map[string]int{}
+	}
+	s.faults[name]++
 }
 
 func NewSim(rng *Rng, strategy string, replay []int16) *Sim {
@@ -213,6 +248,14 @@ func (s *Sim) park(pt Point) {
 	}
 	t := s.cur
 	t.pt = pt
+	for _, r := range s.stalls {
+		if !r.used && r.kind == pt.Kind && (r.role == "" || r.role == t.role) && (r.arg < 0 || uint32(r.arg) == pt.Arg) {
+			r.used = true
+			t.stallUntil = s.steps + r.n
+			s.noteFault("thread-stall/" + pointName[pt.Kind])
+			break
+		}
+	}
 	s.inbox <- struct{}{}
 	<-t.resume
 }
@@ -234,6 +277,38 @@ func rwState(p unsafe.Pointer) (readers int32, writer bool) {
 	return rc, wstate&1 != 0
 }
 
+// muFree reports whether an acquisition of the mutex would succeed at once.
+//
+//go:norace
+func muFree(p unsafe.Pointer, rw, write bool) bool {
+	if !rw {
+		return *(*int32)(p)&1 == 0 // sync.Mutex: state bit 0 = locked
+	}
+	readers, writer := rwState(p)
+	if write {
+		return !writer && readers == 0
+	}
+	return !writer
+}
+
+// muPtr extracts the mutex behind the value the instrumented code passes (&X for the
+// receiver expression X of X.Lock()).
+//
+//go:norace
+func muPtr(mu any) (p unsafe.Pointer, rw, ok bool) {
+	switch m := mu.(type) {
+	case *sync.RWMutex:
+		return unsafe.Pointer(m), true, true
+	case **sync.RWMutex:
+		return unsafe.Pointer(*m), true, *m != nil
+	case *sync.Mutex:
+		return unsafe.Pointer(m), false, true
+	case **sync.Mutex:
+		return unsafe.Pointer(*m), false, *m != nil
+	}
+	return nil, false, false
+}
+
 func enabledAt(pt Point) bool {
 	switch pt.Kind {
 	case ptIdle:
@@ -244,6 +319,10 @@ func enabledAt(pt Point) bool {
 		}
 	case uint8(column.SimBeforeLock):
 		if r, w := latchState(pt.Latch, pt.Arg); w || r != 0 {
+			return false
+		}
+	case ptMuLock:
+		if !muFree(pt.Mu, pt.MuRW, pt.MuWrite) {
 			return false
 		}
 	}
@@ -280,9 +359,19 @@ func (e *PanicError) Error() string {
 // Run schedules the registered threads until all have finished.
 func (s *Sim) Run() error {
 	s.initStrategy()
-	var enabled []*Thread
+	// stall rules naming the start point delay the first step of a thread ("starts late")
+	for _, t := range s.threads {
+		for _, r := range s.stalls {
+			if !r.used && r.kind == ptStart && t.pt.Kind == ptStart && t.stallUntil == 0 && (r.role == "" || r.role == t.role) {
+				r.used = true
+				t.stallUntil = r.n
+				s.noteFault("thread-stall/start")
+			}
+		}
+	}
+	var enabled, stalled []*Thread
 	for {
-		enabled = enabled[:0]
+		enabled, stalled = enabled[:0], stalled[:0]
 		unfinished := 0
 		for _, t := range s.threads {
 			if t.done || (t.foreign && t.pt.Kind == ptIdle) {
@@ -290,11 +379,23 @@ func (s *Sim) Run() error {
 			}
 			unfinished++
 			if enabledAt(t.pt) && (s.gate == nil || s.gate(t)) {
-				enabled = append(enabled, t)
+				if t.stallUntil > s.steps && !s.drain {
+					stalled = append(stalled, t)
+				} else {
+					enabled = append(enabled, t)
+				}
 			}
 		}
 		if unfinished == 0 {
 			return nil
+		}
+		if len(enabled) == 0 && len(stalled) > 0 {
+			// everybody else is blocked or finished: the stall ends early
+			enabled = append(enabled, stalled...)
+			for _, t := range stalled {
+				t.stallUntil = 0
+			}
+			s.noteFault("thread-stall-cut-short")
 		}
 		if len(enabled) == 0 {
 			return &DeadlockError{Desc: s.describe()}
@@ -510,6 +611,26 @@ func (s *Sim) pick(enabled []*Thread) *Thread {
 
 // selfTestLatchPeek checks the assumed sync.RWMutex layout against TryLock/TryRLock.
 func selfTestLatchPeek() error {
+	var mu sync.Mutex
+	var rwm sync.RWMutex
+	if !muFree(unsafe.Pointer(&mu), false, true) || !muFree(unsafe.Pointer(&rwm), true, true) || !muFree(unsafe.Pointer(&rwm), true, false) {
+		return fmt.Errorf("mutex peek self-test failed: idle mutex seen as held")
+	}
+	mu.Lock()
+	rwm.RLock()
+	if muFree(unsafe.Pointer(&mu), false, true) || muFree(unsafe.Pointer(&rwm), true, true) || !muFree(unsafe.Pointer(&rwm), true, false) {
+		return fmt.Errorf("mutex peek self-test failed: held sync.Mutex / read-held sync.RWMutex misread")
+	}
+	mu.Unlock()
+	rwm.RUnlock()
+	rwm.Lock()
+	if muFree(unsafe.Pointer(&rwm), true, false) || muFree(unsafe.Pointer(&rwm), true, true) {
+		return fmt.Errorf("mutex peek self-test failed: write-held sync.RWMutex seen as free")
+	}
+	rwm.Unlock()
+	if !muFree(unsafe.Pointer(&mu), false, true) || !muFree(unsafe.Pointer(&rwm), true, true) {
+		return fmt.Errorf("mutex peek self-test failed: released mutex seen as held")
+	}
 	var l smutex.SMutex128
 	for _, shard := range []uint32{0, 1, 77, 127, 128 + 5} {
 		chk := func(wantR int32, wantW bool, what string) error {
